@@ -11,6 +11,9 @@
 //   time_seq        SEQUENCES of format_time calls on one (fresh) thread with related timestamps (same second, +-1 s, multiples
 //                   of 2^32 / 2^31 / 2^16 seconds, 2^32 us or ms, days, years apart), every result against the civil calendar
 //
+// A third build (-DC18_NDEBUG_LIB, stage c18_ndebug) links the library objects compiled with -DNDEBUG and runs the subchecks as
+// *_nd on a reduced plan; namespace after_main (both sanitized builds) repeats fixed calls after main() has returned.
+//
 // Ambient state: the functions of this property are pure functions of their arguments, so the errno value the thread
 // happens to hold on entry (0, ERANGE, EINVAL, EILSEQ, EINTR, ... left by an unrelated earlier call) must not change any
 // result. The incoming errno is part of every duration / time / size / parse_size / time_seq case (trailing field, 0 when
